@@ -269,7 +269,7 @@ func c18Run(t *fw.T) {
 	r := t.Rng
 	var src []byte
 	if r.Intn(3) > 0 {
-		prog := gen.JSProgram(r, gen.JSOpts{})
+		prog := gen.JSProgram(r, gen.JSOpts{CtxNames: r.Intn(2) == 0})
 		s, _ := gen.JSSpell(prog, gen.JSStyle{Parens: r.Intn(3), Semi: r.Intn(3), WS: r.Intn(2), Seed: r.Int63(), Bang: []int{0, 0, 10, 40}[r.Intn(4)]})
 		if r.Intn(10) == 0 {
 			s = "#!/usr/bin/env node\n" + s // kept as a Comment statement (module goal only)
@@ -329,7 +329,7 @@ func init() {
 		ID: "C18",
 		Rule: "case = a tree returned by js.Parse (random spelling of a generated ES2022 program, or a mutated corpus entry that parses) x visitor policy {descend everywhere, return nil at a random subset, return a different visitor object}; the Enter/Exit log of a recording visitor is compared with a reflection walk over the same tree: " +
 			"every statement/expression/binding/identifier/block position entered (exactly once per position when descending everywhere), a child never before its parent, Exit exactly once per non-nil Enter in stack order, nothing entered below a node whose Enter returned nil, every entered node an addressable part of the tree. non-trivial = accepted input; distinct by policy+bytes",
-		Assume: []string{"required positions are the non-nil IStmt/IExpr/IBinding interface values, *Var and *BlockStmt reachable through exported fields other than Scope; Walk may additionally enter sub-structures of the tree (Params, Element, Property, Arg, …)"},
+		Assume:   []string{"required positions are the non-nil IStmt/IExpr/IBinding interface values, *Var and *BlockStmt reachable through exported fields other than Scope; Walk may additionally enter sub-structures of the tree (Params, Element, Property, Arg, …)"},
 		Required: []string{"trees", "walk.events", "walk.positions", "walk.comment.nodes", "probes"},
 		Streams: []fw.Stream{
 			{Name: "probes", Quick: len(c18Probes), Thorough: len(c18Probes), Run: c18Probe},
